@@ -307,10 +307,11 @@ class AirTouchSocket(Generic[comms.Hdr]):
                 host=self.host, port=self.port
             )
 
-            if not self.is_open:
-                # The socket was closed while the connection attempt was in
-                # progress, so the new connection is no longer wanted.
-                _LOGGER.debug("Socket closed while connecting. Dropping connection")
+            if not self.is_open or self.is_connected:
+                # The socket was closed, or another connection attempt completed,
+                # while this attempt was in progress, so the new connection is
+                # no longer wanted.
+                _LOGGER.debug("Connection no longer required. Dropping connection")
                 writer.close()
                 with contextlib.suppress(OSError):
                     await writer.wait_closed()
